@@ -39,22 +39,25 @@ pub fn targeted(seed: u64, tier: &str) -> Vec<Doc> {
     // namespace users that live only inside sub-roots (pattern content, clip paths, masks, feImage), next to
     // sub-roots without any; several filters sharing one feImage target
     let inner_png = "data:image/png;base64,iVBORw0KGgoAAAANSUhEUgAAAAEAAAABCAYAAAAfFcSJAAAADUlEQVR42mP8z8BQDwAEhQGAhKmMIQAAAABJRU5ErkJggg==";
-    for i in 0..(if tier == "thorough" { 200 } else { 40 }) {
-        let user = match i % 4 {
-            0 => format!(r#"<image width="4" height="4" xlink:href="{inner_png}"/>"#),
+    for i in 0..(if tier == "thorough" { 320 } else { 80 }) {
+        let par = ["", r#" preserveAspectRatio="xMidYMid slice""#, r#" preserveAspectRatio="none""#, r#" preserveAspectRatio="xMinYMax slice""#][(i / 5) % 4];
+        let user = match i % 5 {
+            0 => format!(r#"<image width="4" height="4"{par} xlink:href="{inner_png}"/>"#),
+            4 => r##"<rect width="4" height="4" filter="url(#fdat)"/>"##.to_string(),
             1 => r##"<rect width="4" height="4" filter="url(#fimg)"/>"##.to_string(),
             2 => r##"<text font-size="4"><textPath xlink:href="#tpp">ab</textPath></text>"##.to_string(),
             _ => r##"<use xlink:href="#stamp"/>"##.to_string(),
         };
         let plain = r#"<rect width="3" height="3" fill="green"/>"#;
         let (first, second) = if (i / 4) % 2 == 0 { (user.as_str(), plain) } else { (plain, user.as_str()) };
-        let shape = match (i / 8) % 3 {
+        let shape = match (i / 8) % 4 {
+            3 => format!(r##"<g filter="url(#fdat)"><rect width="20" height="20" fill="blue"/></g><image x="30" width="20" height="10"{par} xlink:href="{inner_png}"/>"##),
             0 => r##"<rect width="50" height="50" fill="url(#pa)" stroke="url(#pb)" stroke-width="6"/>"##.to_string(),
             1 => r##"<g clip-path="url(#ca)" mask="url(#mb)"><rect width="50" height="50" fill="blue"/></g>"##.to_string(),
             _ => r##"<g filter="url(#f1)"><rect width="20" height="20" fill="blue"/></g><g filter="url(#f2)"><rect x="30" width="20" height="20" fill="red"/></g>"##.to_string(),
         };
         let doc = format!(
-            r##"{HDR}<defs><rect id="stamp" width="5" height="5" fill="teal"/><path id="tpp" d="M 0 5 L 40 5"/><filter id="fimg" x="0" y="0" width="1" height="1"><feImage xlink:href="#stamp"/></filter><filter id="f1" x="0" y="0" width="1" height="1"><feImage xlink:href="#stamp"/></filter><filter id="f2" x="0" y="0" width="1" height="1"><feImage xlink:href="#stamp"/><feOffset dx="1"/></filter><pattern id="pa" width="10" height="10" patternUnits="userSpaceOnUse">{first}</pattern><pattern id="pb" width="10" height="10" patternUnits="userSpaceOnUse">{second}</pattern><clipPath id="ca">{}</clipPath><mask id="mb"><rect width="100" height="100" fill="white"/>{second}</mask></defs>{shape}</svg>"##,
+            r##"{HDR}<defs><rect id="stamp" width="5" height="5" fill="teal"/><path id="tpp" d="M 0 5 L 40 5"/><filter id="fimg" x="0" y="0" width="1" height="1"><feImage xlink:href="#stamp"/></filter><filter id="fdat" x="0" y="0" width="1" height="1"><feImage{par} xlink:href="{inner_png}"/></filter><filter id="f1" x="0" y="0" width="1" height="1"><feImage xlink:href="#stamp"/></filter><filter id="f2" x="0" y="0" width="1" height="1"><feImage xlink:href="#stamp"/><feOffset dx="1"/></filter><pattern id="pa" width="10" height="10" patternUnits="userSpaceOnUse">{first}</pattern><pattern id="pb" width="10" height="10" patternUnits="userSpaceOnUse">{second}</pattern><clipPath id="ca">{}</clipPath><mask id="mb"><rect width="100" height="100" fill="white"/>{second}</mask></defs>{shape}</svg>"##,
             if first.starts_with("<text") || first.starts_with("<rect") { first.to_string() } else { r#"<rect width="40" height="40"/>"#.to_string() }
         );
         v.push(Doc { class: "targeted-xlink-in-subroots".into(), path: None, data: doc.into_bytes(), dpi: 96.0 });
